@@ -1,6 +1,8 @@
-from . import p_state, p_docopt, p_engine, p_find
+from . import p_state, p_docopt, p_engine, p_find, p_verbatim, p_exec
 PROPS = {}
 PROPS.update(p_state.PROPS)
 PROPS.update(p_docopt.PROPS)
 PROPS.update(p_engine.PROPS)
 PROPS.update(p_find.PROPS)
+PROPS.update(p_verbatim.PROPS)
+PROPS.update(p_exec.PROPS)
